@@ -44,6 +44,11 @@ def make(desc):
     if k == "bare":
         sh = SHAPES[desc[1]]
         return _data(sh, 0.25) if sh != () else 2.75
+    if k == "barez":  # a bare array that *contains* a zero but is not all-zero: the documented exception does not cover it
+        sh = SHAPES[desc[1]]
+        d = np.array(_data(sh, 0.25), dtype=float, copy=True)
+        d.flat[0] = 0.0
+        return d
     if k == "zero":
         if desc[1] == "list":
             return [0.0, 0.0, 0.0]
@@ -89,7 +94,7 @@ def dim_of(desc, unit_dims):
         return unit_dims[desc[1]]
     if k == "hq":
         return T.LENGTH if desc[1] == "old" else T.TIME
-    if k in ("dimless", "pct", "bare"):
+    if k in ("dimless", "pct", "bare", "barez"):
         return T.ZERO
     return None  # zero: wildcard
 
@@ -255,6 +260,10 @@ def applicable(form, dx, dy):
         return False  # a unit *string* denotes the registry's current definition, not the captured unit object
     kx = "q" if kx in ("zq", "hq") else kx
     ky = "q" if ky in ("zq", "hq") else ky
+    if "barez" in (kx, ky) and (dx[-1] == "s" if kx == "barez" else dy[-1] == "s"):
+        return False  # a scalar cannot contain a zero next to a non-zero
+    kx = "bare" if kx == "barez" else kx
+    ky = "bare" if ky == "barez" else ky
     sx = dx[-1] if kx not in ("qlist",) else "a"
     sy = dy[-1] if ky not in ("qlist",) else "a"
     if ky == "zero" and sy == "list":
@@ -304,6 +313,8 @@ def applicable(form, dx, dy):
 def expectation(form, dx, dy, dimx, dimy):
     """-> 'must-raise' | 'eq-special' | 'unjudged:<why>' | 'control'"""
     kx, ky = dx[0], dy[0]
+    kx = "bare" if kx == "barez" else kx
+    ky = "bare" if ky == "barez" else ky
     if kx == "zero" or ky == "zero":
         return "unjudged:all-zero bare operand (documented exception)"
     if ky == "zq" and dimy == T.ZERO:
@@ -434,7 +445,7 @@ def part_cells(payload):
                     pairs.append((("q", ua, sx), ("q", ub, sy)))
                 if "kinds" in kinds:
                     qa = ("q", ua, sx)
-                    others = [("dimless", sy), ("pct", sy), ("bare", sy), ("zero", sy), ("zero", "list"), ("qlist", ub),
+                    others = [("dimless", sy), ("pct", sy), ("bare", sy), ("barez", sy), ("zero", sy), ("zero", "list"), ("qlist", ub),
                               ("q", ua, sy)]
                     others += [("zq", "dimensionless", sy), ("zq", "%", sy), ("zq", ub, sy)]
                     for o in others:
